@@ -405,6 +405,11 @@ async fn run_case_async(case: &Value, stub: &Stub) -> Value {
                     let before = ds[i].steps.len();
                     advance(&mut w, &mut ds[i], stub, &mut local_rx, &mut net_rx).await;
                     collect_events(i, &mut events_rx, &w.reg);
+                    // a delivery that has returned and whose queued writes have been processed is "fully
+                    // processed" (its disk write may still be unacknowledged): snapshot for the oracles
+                    if ds[i].result.is_some() && ds[i].outbox.is_empty() && ds[i].store_after.is_none() {
+                        ds[i].store_after = Some(w.dump());
+                    }
                     trace.push(json!({"adv": i, "steps": ds[i].steps[before..].to_vec(), "done": ds[i].result}));
                 }
             } else {
@@ -424,7 +429,9 @@ async fn run_case_async(case: &Value, stub: &Stub) -> Value {
         w.flush(&mut ds[i]);
         collect_events(i, &mut events_rx, &w.reg);
         w.ack();
-        ds[i].store_after = Some(w.dump());
+        if ds[i].store_after.is_none() {
+            ds[i].store_after = Some(w.dump());
+        }
     }
 
     let results: Vec<Value> = ds
